@@ -65,7 +65,7 @@ def cases(rng, tier):
                       ('first_extrema', ['peak', 'trough', None, 'rise']), ('direction_amp', ['both', 'next', 'last', 'prev']),
                       ('direction_period', ['both', 'next', 'last', 'prev']), ('direction_edge', ['both', 'next', 'last', 'prev']),
                       ('progress', [None, 'tqdm', 'bar']), ('fit_dim', [1, 2, 0]), ('group_dim', [2, 3, 1, 4]),
-                      ('plot_fitted', [True, False]), ('shape_center', ['peak', 'trough', 'x']),
+                      ('plot_fitted', [True, False]), ('shape_center', ['peak', 'trough', 'x']), ('shape_n_cycles', [3, 1, -1]), ('band_amp_n_cycles', [3, -2]),
                       ('burst_features_method', ['cycles', 'amp', 'x']), ('first_extrema_override', [True])]:
         for v in vals:
             out.append({'kind': 'option', 'opt': opt, 'v': v})
@@ -185,6 +185,13 @@ def run_impl(c):
             return _attempt(lambda: compute_features(sig, 100, (3, 8), center_extrema=v, threshold_kwargs={}))
         if o == 'shape_center':
             return _attempt(lambda: compute_shape_features(sig, 100, (3, 8), center_extrema=v))
+        if o == 'shape_n_cycles':
+            return _attempt(lambda: compute_shape_features(sig, 100, (3, 8), n_cycles=v))
+        if o == 'band_amp_n_cycles':
+            from bycycle.features import compute_cyclepoints
+            from bycycle.features.shape import compute_band_amp
+            dfs = compute_cyclepoints(sig, 100, (3, 8))
+            return _attempt(lambda: compute_band_amp(dfs, sig, 100, (3, 8), n_cycles=v))
         if o == 'burst_method':
             return _attempt(lambda: compute_features(sig, 100, (3, 8), burst_method=v, threshold_kwargs={}))
         if o == 'burst_features_method':
@@ -262,7 +269,8 @@ def _expected(c):
                  'burst_features_method': ['cycles', 'amp'], 'first_extrema': ['peak', 'trough', None],
                  'direction_amp': ['both', 'next', 'last'], 'direction_period': ['both', 'next', 'last'],
                  'direction_edge': ['both', 'next', 'last'], 'progress': [None, 'tqdm', 'tqdm.notebook'],
-                 'fit_dim': [1], 'group_dim': [2, 3], 'plot_fitted': [True], 'first_extrema_override': []}
+                 'fit_dim': [1], 'group_dim': [2, 3], 'plot_fitted': [True], 'first_extrema_override': [],
+                 'shape_n_cycles': [3, 1], 'band_amp_n_cycles': [3]}
         return c['v'] in valid[c['opt']]
 
 
